@@ -25,15 +25,15 @@ def AEAD.NonceBinding (A : AEAD) (k : Bytes) : Prop :=
 
 /-! ### what a sender puts on the wire -/
 
-/-- one frame of the sender: the chunk and the stale padding behind it -/
-abbrev Fr := Bytes × Bytes
+/-- one frame of the sender, given by the chunk it carries -/
+abbrev Fr := Bytes
 
 /-- chunks are non-empty and at most `dataMaxSize` long -/
-def Fr.WF (f : Fr) : Prop := f.1 ≠ [] ∧ f.1.length ≤ dataMaxSize
+def Fr.WF (f : Fr) : Prop := f ≠ [] ∧ f.length ≤ dataMaxSize
 
 /-- the sealed frame with connection counter `c` -/
 def sealedAt (A : AEAD) (k : Bytes) (c : Nat) (f : Fr) : Bytes :=
-  A.doSeal k (nonceOf c) (mkFrame f.1 f.2)
+  A.doSeal k (nonceOf c) (mkFrame f)
 
 /-- frames sealed under consecutive counters from `c` on, concatenated -/
 def sealAll (A : AEAD) (k : Bytes) : Nat → List Fr → Bytes
@@ -45,15 +45,14 @@ def sealList (A : AEAD) (k : Bytes) : Nat → List Fr → List Bytes
   | _, [] => []
   | c, f :: fs => sealedAt A k c f :: sealList A k (c + 1) fs
 
-/-- the frames of one `Write(data)` whose pooled buffer held `pad` -/
-def framesOfWrite (data pad : Bytes) : List Fr := (chunksOf data).map fun ch => (ch, pad)
+/-- the frames of one `Write(data)` -/
+def framesOfWrite (data : Bytes) : List Fr := chunksOf data
 
 /-- the frames of a sequence of `Write` calls -/
-def framesOfWrites (ws : List (Bytes × Bytes)) : List Fr :=
-  ws.flatMap fun w => framesOfWrite w.1 w.2
+def framesOfWrites (ws : List Bytes) : List Fr := ws.flatMap framesOfWrite
 
 /-- the bytes carried by a list of frames -/
-def payload (fs : List Fr) : Bytes := (fs.map (·.1)).flatten
+def payload (fs : List Fr) : Bytes := fs.flatten
 
 /-! ### an adversarial wire -/
 
